@@ -1,6 +1,7 @@
 package rules
 
 import (
+	"go/token"
 	"golang.org/x/tools/go/ssa"
 
 	"sheensverif/internal/flow"
@@ -141,6 +142,36 @@ func deepDefs(v ssa.Value, scope []*ssa.Function) []ssa.Value {
 					}
 				}
 				return
+			}
+		case *ssa.UnOp:
+			// load of a local variable cell: the values stored into it (here and in literals that capture it)
+			if al, ok := x.X.(*ssa.Alloc); ok && x.Op == token.MUL {
+				n := 0
+				for _, r := range ssau.Referrers(al) {
+					switch y := r.(type) {
+					case *ssa.Store:
+						if y.Addr == ssa.Value(al) {
+							n++
+							rec(y.Val, depth+1)
+						}
+					case *ssa.MakeClosure:
+						lit := y.Fn.(*ssa.Function)
+						for i, b := range y.Bindings {
+							if b != ssa.Value(al) || i >= len(lit.FreeVars) {
+								continue
+							}
+							for _, r2 := range ssau.Referrers(lit.FreeVars[i]) {
+								if st, ok := r2.(*ssa.Store); ok && st.Addr == ssa.Value(lit.FreeVars[i]) {
+									n++
+									rec(st.Val, depth+1)
+								}
+							}
+						}
+					}
+				}
+				if n > 0 {
+					return
+				}
 			}
 		case *ssa.FreeVar:
 			fn := x.Parent()
